@@ -420,13 +420,22 @@ def describe_scope(st, rt):
     return ('other', repr(v))
 
 
+class SymField:
+    """a symbolic field of a described record (kept as the executor value so that obligations can put it into a VC)"""
+    def __init__(self, v): self.v = v
+    def __repr__(self): return f'Sym({self.v!r})'
+    def __eq__(self, o): return isinstance(o, SymField) and repr(o.v) == repr(self.v)
+    def __hash__(self): return hash(repr(self.v))
+    def __lt__(self, o): return repr(self) < repr(o)
+
+
 def describe_value(st, x):
     v = st.deref_all(x)
     if isinstance(v, Adt) and v.names:
         out = []
         for n, f in zip(v.names, v.items):
             if isinstance(f, (Int, Bool)):
-                c = f.concrete(); out.append((n, c if c is not None else str(f)))
+                c = f.concrete(); out.append((n, c if c is not None else SymField(f)))
             elif isinstance(f, Adt) and f.ty == 'Option':
                 out.append((n, None if f.variant == 'None' else describe_value(st, f.items[0])))
             else:
@@ -577,3 +586,23 @@ def io_models():
     def m_sink(ctx, args, st):
         return ret(st, SinkEnv('NULLSINK', may_fail=False, may_short=False).abs())
     return [(r'^(?:std::io::)?sink$', m_sink, 'model:std::io::sink (discarding writer)')]
+
+
+def fmt_log_matches(log, want):
+    """log: accepted sink entries as produced by SinkEnv.text(); want: list of expected strings, one per write.
+    Returns None if the shape cannot match, else a list of z3 constraints (symbolic integer placeholders == the expected numbers)."""
+    import re as _re
+    if len(log) != len(want): return None
+    cons = []
+    for e, w in zip(log, want):
+        if e[0] != 'fmt': return None
+        pat = ''; ints = []
+        for p in e[1]:
+            if isinstance(p, str): pat += _re.escape(p)
+            elif isinstance(p, tuple) and p[0] == 'int': pat += r'(-?\d+)'; ints.append(p[1])
+            else: return None
+        m = _re.fullmatch(pat, w)
+        if not m: return None
+        for iv, g in zip(ints, m.groups()):
+            cons.append(iv.e == z3.BitVecVal(int(g), iv.bits))
+    return cons
